@@ -5,9 +5,8 @@ value under validation is a solver variable.  Post-condition: validate(S, v) is 
 `conforms(spec, v)` (engine/hlib.py, written from the property text), and `S == v` agrees.
 """
 from engine.hgen import mk
+from harness.skeletons import PRELUDE, entries
 
-WILD = "Union[None, bool, int, float, str, bytes]"
-PRELUDE = "from typing import Union\n"
 
 ASSUMPTIONS = [
     "structure (schema shape, list length <= 4, dict keys, nesting depth <= 3) is fixed per harness; "
@@ -31,121 +30,20 @@ a, b = verdicts(S, val)
 return (a == want and b == want), ("accept" if want else "reject")
 """
 
+BOUNDS = ("per harness: fixed schema/value shape; lists <= 4 elements, strings <= 3 chars (alphabet <= 3, "
+          "substring <= 2), dict <= 3 keys, nesting depth <= 3; ints unbounded; floats all doubles")
+
 FUNCS = ("validation/_validator.py:Validator.visit_*", "validation/__init__.py:validate",
          "validation/__init__.py:eq")
 
 
-def sk(name, params, spec, val, pre=(), timeout=60, bounds="", covers=("accept", "reject"), tier="quick"):
-    h = mk("C02." + name, params, BODY.format(spec=spec, val=val), covers=covers, pre=pre,
-           timeout=timeout, bounds=bounds, functions=FUNCS, prelude=PRELUDE)
-    h.meta["tier"] = tier
-    return h
-
-
-def catalogue():
-    L = []
-    W = "w: " + WILD
-    S3 = ["len(v) <= 3"]
-    # ---- scalars
-    L.append(sk("int.minmax", "mn: int, mx: int, v: int", '("int", Nil, mn, mx)', "v"))
-    L.append(sk("int.min", "mn: int, v: int", '("int", Nil, mn, Nil)', "v"))
-    L.append(sk("int.max", "mx: int, v: int", '("int", Nil, Nil, mx)', "v"))
-    L.append(sk("int.value", "x: int, v: int", '("int", x, Nil, Nil)', "v"))
-    L.append(sk("int.value.minmax", "x: int, mn: int, mx: int, v: int", '("int", x, mn, mx)', "v"))
-    L.append(sk("int.wild", "mn: int, " + W, '("int", Nil, mn, Nil)', "w", pre=["not isinstance(w, str) or len(w) <= 2", "not isinstance(w, bytes) or len(w) <= 2"]))
-    L.append(sk("bool.value", "x: bool, " + W, '("bool", x)', "w", pre=["not isinstance(w, (str, bytes)) or len(w) <= 2"]))
-    L.append(sk("bool.any", W, '("bool", Nil)', "w", pre=["not isinstance(w, (str, bytes)) or len(w) <= 2"]))
-    L.append(sk("none", W, '("none",)', "w", pre=["not isinstance(w, (str, bytes)) or len(w) <= 2"]))
-    L.append(sk("float.minmax", "mn: float, mx: float, v: float", '("float", Nil, mn, mx, Nil)', "v",
-                pre=["v == v"]))
-    L.append(sk("float.min.wild", "mn: float, " + W, '("float", Nil, mn, Nil, Nil)', "w",
-                pre=["not isinstance(w, (str, bytes)) or len(w) <= 2", "not isinstance(w, float) or w == w"]))
-    L.append(sk("bytes.value", "x: bytes, v: bytes", '("bytes", x)', "v", pre=["len(x) <= 3", "len(v) <= 3"]))
-    L.append(sk("bytes.wild", W, '("bytes", Nil)', "w", pre=["not isinstance(w, (str, bytes)) or len(w) <= 2"]))
-    # ---- str
-    L.append(sk("str.len", "n: int, v: str", '("str", Nil, (n, Nil, Nil), Nil, Nil, Nil)', "v", pre=S3))
-    L.append(sk("str.minlen", "n: int, v: str", '("str", Nil, (Nil, n, Nil), Nil, Nil, Nil)', "v", pre=S3))
-    L.append(sk("str.maxlen", "n: int, v: str", '("str", Nil, (Nil, Nil, n), Nil, Nil, Nil)', "v", pre=S3))
-    L.append(sk("str.lenrange", "a: int, b: int, v: str", '("str", Nil, (Nil, a, b), Nil, Nil, Nil)', "v", pre=S3))
-    L.append(sk("str.value", "x: str, v: str", '("str", x, NOLEN, Nil, Nil, Nil)', "v",
-                pre=["len(x) <= 3", "len(v) <= 3"]))
-    L.append(sk("str.alphabet", "al: str, v: str", '("str", Nil, NOLEN, al, Nil, Nil)', "v",
-                pre=["len(al) <= 3", "len(v) <= 3"], timeout=90))
-    L.append(sk("str.contains", "sub: str, v: str", '("str", Nil, NOLEN, Nil, sub, Nil)', "v",
-                pre=["len(sub) <= 2", "len(v) <= 3"]))
-    L.append(sk("str.alpha.contains.len", "al: str, sub: str, a: int, b: int, v: str",
-                '("str", Nil, (Nil, a, b), al, sub, Nil)', "v",
-                pre=["len(al) <= 2", "len(sub) <= 1", "len(v) <= 3"], timeout=120))
-    L.append(sk("str.wild", "n: int, " + W, '("str", Nil, (Nil, n, Nil), Nil, Nil, Nil)', "w",
-                pre=["not isinstance(w, (str, bytes)) or len(w) <= 2"]))
-    for i, pat in enumerate([r"^a+$", r"[0-9]{2}", r"b|cd", r"^\\w?x"]):
-        L.append(sk("str.regex%d" % i, "v: str", '("str", Nil, NOLEN, Nil, Nil, r"%s")' % pat, "v",
-                    pre=["len(v) <= 3"], timeout=90))
-    # ---- menu types
-    L.append(sk("uuid4", "i: int, j: int", '("uuid4", pick(UUIDS4, i, Nil))', "pick(UUID_VALUES, j)"))
-    L.append(sk("datetime", "i: int, j: int", '("datetime", pick(DATETIMES, i, Nil))', "pick(DT_VALUES, j)"))
-    L.append(sk("date", "i: int, j: int", '("date", pick(DATES, i, Nil))', "pick(DT_VALUES, j)"))
-    # ---- lists
-    INT_A = '("int", Nil, a, Nil)'
-    INT_B = '("int", Nil, Nil, b)'
-    L4 = "n: int, v0: int, v1: int, v2: int, v3: int"
-    V4 = "mklist(n, v0, v1, v2, v3)"
-    N4 = ["0 <= n <= 4"]
-    L.append(sk("list.untyped.len", "k: int, n: int", '("list", None, (k, Nil, Nil))', "mklist(n, 0, None, 'x', [])", pre=N4))
-    L.append(sk("list.untyped.range", "p: int, q: int, n: int", '("list", None, (Nil, p, q))', "mklist(n, 0, None, 'x', [])", pre=N4))
-    L.append(sk("list.typed", "a: int, " + L4, '("list_t", %s, NOLEN)' % INT_A, V4, pre=N4))
-    L.append(sk("list.typed.len", "a: int, p: int, q: int, " + L4, '("list_t", %s, (Nil, p, q))' % INT_A, V4, pre=N4))
-    L.append(sk("list.typed.maxlen", "a: int, q: int, " + L4, '("list_t", %s, (Nil, Nil, q))' % INT_A, V4, pre=N4))
-    L.append(sk("list.exact", "a: int, b: int, " + L4, '("list_e", [%s, %s], NOLEN)' % (INT_A, INT_B), V4, pre=N4))
-    L.append(sk("list.exact.empty", "n: int", '("list_e", [], NOLEN)', "mklist(n, 0, 1)", pre=["0 <= n <= 2"]))
-    L.append(sk("list.head", "a: int, b: int, " + L4, '("list_e", [%s, %s, E], NOLEN)' % (INT_A, INT_B), V4, pre=N4))
-    L.append(sk("list.head1.len", "a: int, k: int, " + L4, '("list_e", [%s, E], (k, Nil, Nil))' % INT_A, V4, pre=N4))
-    L.append(sk("list.tail", "a: int, b: int, " + L4, '("list_e", [E, %s, %s], NOLEN)' % (INT_A, INT_B), V4, pre=N4))
-    L.append(sk("list.tail1.minlen", "a: int, k: int, " + L4, '("list_e", [E, %s], (Nil, k, Nil))' % INT_A, V4, pre=N4))
-    L.append(sk("list.body", "a: int, b: int, " + L4, '("list_e", [E, %s, %s, E], NOLEN)' % (INT_A, INT_B), V4, pre=N4, timeout=90))
-    L.append(sk("list.body1.maxlen", "a: int, k: int, " + L4, '("list_e", [E, %s, E], (Nil, Nil, k))' % INT_A, V4, pre=N4))
-    L.append(sk("list.onlyellipsis", "n: int", '("list_e", [E], NOLEN)', "mklist(n, 0, 'x')", pre=["0 <= n <= 2"], covers=("accept",)))
-    L.append(sk("list.typed.wild", "a: int, v0: int, " + W, '("list_t", %s, NOLEN)' % INT_A, "[v0, w]",
-                pre=["not isinstance(w, (str, bytes)) or len(w) <= 2"]))
-    L.append(sk("list.wild", "a: int, " + W, '("list_t", %s, NOLEN)' % INT_A, "w",
-                pre=["not isinstance(w, (str, bytes)) or len(w) <= 2"], covers=("reject",)))
-    # ---- dicts
-    D = '("dict", [("a", False, %s), ("b", True, ("str", Nil, (Nil, k, Nil), Nil, Nil, Nil))], %%s)' % INT_A
-    DP = "a: int, k: int, pa: bool, pb: bool, px: bool, va: int, vb: str"
-    DV = "mkdict(('a', pa, va), ('b', pb, vb), ('x', px, 0))"
-    L.append(sk("dict.strict", DP, D % "False", DV, pre=["len(vb) <= 2"]))
-    L.append(sk("dict.relaxed", DP, D % "True", DV, pre=["len(vb) <= 2"]))
-    L.append(sk("dict.untyped", "pa: bool, " + W, '("dict", None)', "mkdict(('a', pa, w))",
-                pre=["not isinstance(w, (str, bytes)) or len(w) <= 2"], covers=("accept",)))
-    L.append(sk("dict.empty", "pa: bool", '("dict", [], False)', "mkdict(('a', pa, 0))"))
-    L.append(sk("dict.onlyrelaxed", "pa: bool", '("dict", [], True)', "mkdict(('a', pa, 0))", covers=("accept",)))
-    L.append(sk("dict.wild.member", "a: int, k: int, pb: bool, " + W, D % "False", "mkdict(('a', True, w), ('b', pb, 'zz'))",
-                pre=["not isinstance(w, (str, bytes)) or len(w) <= 2"]))
-    L.append(sk("dict.wild", "a: int, k: int, " + W, D % "False", "w",
-                pre=["not isinstance(w, (str, bytes)) or len(w) <= 2"], covers=("reject",)))
-    L.append(sk("dict.intkeys", "a: int, p0: bool, p1: bool, v0: int, v1: int",
-                '("dict", [(0, False, %s), (1, True, %s)], False)' % (INT_A, INT_A), "mkdict((0, p0, v0), (1, p1, v1))"))
-    # ---- nesting
-    NEST = '("dict", [("r", False, ("list_t", ("dict", [("id", False, %s), ("t", True, ("str", Nil, (Nil, Nil, k), Nil, Nil, Nil))], False), (Nil, p, Nil)))], True)' % INT_A
-    L.append(sk("nest.dict.list.dict", "a: int, k: int, p: int, n: int, i0: int, i1: int, pt: bool, t: str, px: bool",
-                NEST, "{'r': mklist(n, mkdict(('id', True, i0), ('t', pt, t)), mkdict(('id', True, i1), ('x', px, 0)))}",
-                pre=["0 <= n <= 2", "len(t) <= 2"], timeout=120))
-    L.append(sk("nest.list.list", "a: int, n: int, m: int, v0: int, v1: int, v2: int",
-                '("list_e", [E, ("list_e", [%s, E], NOLEN)], NOLEN)' % INT_A,
-                "mklist(n, [v2], mklist(m, v0, v1))", pre=["0 <= n <= 2", "0 <= m <= 2"]))
-    # ---- any / alias
-    ANY = '("any", [%s, ("str", Nil, (k, Nil, Nil), Nil, Nil, Nil), ("none",)])' % INT_A
-    L.append(sk("any.3", "a: int, k: int, " + W, ANY, "w", pre=["not isinstance(w, (str, bytes)) or len(w) <= 2"]))
-    L.append(sk("any.empty", W, '("any", None)', "w", pre=["not isinstance(w, (str, bytes)) or len(w) <= 2"], covers=("accept",)))
-    L.append(sk("any.nested", "a: int, b: int, v: int", '("any", [%s, ("any", [%s, ("none",)])])' % (INT_A, INT_B), "v", covers=("accept",)))
-    L.append(sk("any.in.list", "a: int, b: int, n: int, v0: int, v1: int",
-                '("list_t", ("any", [("int", Nil, a, Nil), ("int", Nil, Nil, b)]), NOLEN)', "mklist(n, v0, v1)", pre=["0 <= n <= 2"]))
-    L.append(sk("alias", "a: int, b: int, " + W, '("alias", "T", ("int", Nil, a, b))', "w",
-                pre=["not isinstance(w, (str, bytes)) or len(w) <= 2"]))
-    L.append(sk("alias.in.dict", "a: int, pa: bool, va: int",
-                '("dict", [("a", True, ("alias", "T", %s))], False)' % INT_A, "mkdict(('a', pa, va))"))
-    return L
-
 
 def harnesses(tier, seed, active_kf=()):
-    return catalogue()
+    out = []
+    for e in entries():
+        if e["tier"] == "thorough" and tier != "thorough":
+            continue
+        out.append(mk("C02." + e["name"], e["params"], BODY.format(spec=e["spec"], val=e["val"]),
+                      covers=e["covers"], pre=e["pre"], timeout=e["timeout"], functions=FUNCS,
+                      prelude=PRELUDE, bounds=BOUNDS))
+    return out
